@@ -8,13 +8,18 @@ namespace Lena.C08
 /-! ## equality of dictionaries as Python sees it -/
 
 /-- Python's `==` on contexts, type-strict on scalars: two dictionaries are equal when they have the same
-keys and equal values under every key — whatever the insertion order -/
+keys and equal values under every key — whatever the insertion order; two lists are equal when they have
+the same length and equal elements at every position -/
 inductive DictEq : Val → Val → Prop where
   | leaf (a : Leaf) : DictEq (.leaf a) (.leaf a)
   | dict (ea eb : Entries) :
       (∀ k, (lookup ea k).isSome = (lookup eb k).isSome) →
       (∀ k v w, lookup ea k = some v → lookup eb k = some w → DictEq v w) →
       DictEq (.dict ea) (.dict eb)
+  | list (xa xb : List Val) :
+      xa.length = xb.length →
+      (∀ (i : Nat) v w, xa[i]? = some v → xb[i]? = some w → DictEq v w) →
+      DictEq (.list xa) (.list xb)
 
 /-! ## canonical form: every dictionary sorted by key -/
 
@@ -26,9 +31,13 @@ mutual
 def canon : Val → Val
   | .leaf a => .leaf a
   | .dict es => .dict (canonEs es)
+  | .list xs => .list (canonL xs)
 def canonEs : Entries → Entries
   | [] => []
   | (k, v) :: r => insertE k (canon v) (canonEs r)
+def canonL : List Val → List Val
+  | [] => []
+  | v :: r => canon v :: canonL r
 end
 
 /-! the encoder without sorting -/
@@ -36,12 +45,19 @@ mutual
 def rawTokens : Val → List Tok
   | .leaf a => [.scalar a]
   | .dict es => .lbrace :: (rawEs es ++ [.rbrace])
+  | .list xs => .lbrack :: (rawL xs ++ [.rbrack])
 def rawEs : Entries → List Tok
   | [] => []
   | (k, v) :: r =>
     match r with
     | [] => .key k :: .colon :: rawTokens v
     | _ :: _ => .key k :: .colon :: (rawTokens v ++ .comma :: rawEs r)
+def rawL : List Val → List Tok
+  | [] => []
+  | v :: r =>
+    match r with
+    | [] => rawTokens v
+    | _ :: _ => rawTokens v ++ .comma :: rawL r
 end
 
 /-- the rendered items of a dictionary, unsorted, with the plain encoder -/
@@ -77,11 +93,22 @@ theorem toTokens_eq_raw : ∀ v : Val, toTokens v = rawTokens (canon v)
     simp only [toTokens, canon, rawTokens]
     rw [sortItems_eq_raw es, joinItems_itemsRaw]
     simp
+  | .list xs => by
+    simp only [toTokens, canon, rawTokens]
+    rw [elemTokens_eq_raw xs]
 theorem sortItems_eq_raw : ∀ es : Entries, sortItems (itemTokens es) = itemsRaw (canonEs es)
   | [] => by simp [itemTokens, sortItems, canonEs, itemsRaw]
   | (k, v) :: r => by
     simp only [itemTokens, sortItems, canonEs]
     rw [sortItems_eq_raw r, toTokens_eq_raw v, insertItem_itemsRaw]
+theorem elemTokens_eq_raw : ∀ xs : List Val, elemTokens xs = rawL (canonL xs)
+  | [] => by simp [elemTokens, canonL, rawL]
+  | [v] => by simp [elemTokens, canonL, rawL, toTokens_eq_raw v]
+  | v :: w :: r => by
+    have ih := elemTokens_eq_raw (w :: r)
+    show toTokens v ++ Tok.comma :: elemTokens (w :: r) =
+      rawTokens (canon v) ++ Tok.comma :: rawL (canonL (w :: r))
+    rw [toTokens_eq_raw v, ih]
 end
 
 /-! ## the plain encoder is injective (the token structure is unambiguous) -/
@@ -92,10 +119,18 @@ theorem rawTokens_inj : ∀ (a b : Val) (r1 r2 : List Tok),
     simp only [rawTokens, List.cons_append, List.nil_append, List.cons.injEq, Tok.scalar.injEq] at h
     exact ⟨by rw [h.1], h.2⟩
   | .leaf x, .dict eb, r1, r2, h => by simp [rawTokens] at h
+  | .leaf x, .list xb, r1, r2, h => by simp [rawTokens] at h
   | .dict ea, .leaf y, r1, r2, h => by simp [rawTokens] at h
+  | .dict ea, .list xb, r1, r2, h => by simp [rawTokens] at h
+  | .list xa, .leaf y, r1, r2, h => by simp [rawTokens] at h
+  | .list xa, .dict eb, r1, r2, h => by simp [rawTokens] at h
   | .dict ea, .dict eb, r1, r2, h => by
     simp only [rawTokens, List.cons_append, List.append_assoc, List.cons.injEq, true_and] at h
     have := rawEs_inj ea eb r1 r2 (by simpa using h)
+    exact ⟨by rw [this.1], this.2⟩
+  | .list xa, .list xb, r1, r2, h => by
+    simp only [rawTokens, List.cons_append, List.append_assoc, List.cons.injEq, true_and] at h
+    have := rawL_inj xa xb r1 r2 (by simpa using h)
     exact ⟨by rw [this.1], this.2⟩
 theorem rawEs_inj : ∀ (ea eb : Entries) (r1 r2 : List Tok),
     rawEs ea ++ .rbrace :: r1 = rawEs eb ++ .rbrace :: r2 → ea = eb ∧ r1 = r2
@@ -129,6 +164,40 @@ theorem rawEs_inj : ∀ (ea eb : Entries) (r1 r2 : List Tok),
         simp only [List.cons.injEq, true_and] at h1
         have h2 := rawEs_inj (e :: t) (e' :: t') r1 r2 h1.2
         exact ⟨by rw [h.1, h1.1, h2.1], h2.2⟩
+theorem rawL_inj : ∀ (xa xb : List Val) (r1 r2 : List Tok),
+    rawL xa ++ .rbrack :: r1 = rawL xb ++ .rbrack :: r2 → xa = xb ∧ r1 = r2
+  | [], [], r1, r2, h => by simpa [rawL] using h
+  | [], v :: r, r1, r2, h => by
+    exfalso
+    cases v <;> cases r <;> simp [rawL, rawTokens] at h
+  | v :: r, [], r1, r2, h => by
+    exfalso
+    cases v <;> cases r <;> simp [rawL, rawTokens] at h
+  | v :: r, v' :: r', r1, r2, h => by
+    cases r with
+    | nil =>
+      cases r' with
+      | nil =>
+        simp only [rawL] at h
+        have := rawTokens_inj v v' _ _ h
+        simp only [List.cons.injEq, true_and] at this
+        exact ⟨by rw [this.1], this.2⟩
+      | cons e' t' =>
+        simp only [rawL, List.append_assoc] at h
+        have := rawTokens_inj v v' _ _ h
+        simp at this
+    | cons e t =>
+      cases r' with
+      | nil =>
+        simp only [rawL, List.append_assoc] at h
+        have := rawTokens_inj v v' _ _ h
+        simp at this
+      | cons e' t' =>
+        simp only [rawL, List.append_assoc, List.cons_append] at h
+        have h1 := rawTokens_inj v v' _ _ h
+        simp only [List.cons.injEq, true_and] at h1
+        have h2 := rawL_inj (e :: t) (e' :: t') r1 r2 h1.2
+        exact ⟨by rw [h1.1, h2.1], h2.2⟩
 end
 
 theorem rawTokens_injective (a b : Val) (h : rawTokens a = rawTokens b) : a = b := by
@@ -294,6 +363,20 @@ theorem sorted_ext : ∀ (l1 l2 : Entries), SortedKeys l1 → SortedKeys l2 → 
 
 /-! ## equal canonical forms ⇔ equal dictionaries -/
 
+theorem canonL_eq_map : ∀ xs : List Val, canonL xs = xs.map canon
+  | [] => by simp [canonL]
+  | v :: r => by simp [canonL, canonL_eq_map r]
+
+theorem getElem_wf : ∀ (xs : List Val) (i : Nat) (v : Val), ListWF xs → xs[i]? = some v → v.WF
+  | [], i, v, _, h => by simp at h
+  | x :: r, 0, v, hw, h => by
+    simp only [ListWF] at hw
+    simp at h; subst h; exact hw.1
+  | x :: r, i + 1, v, hw, h => by
+    simp only [ListWF] at hw
+    simp at h
+    exact getElem_wf r i v hw.2 h
+
 /-- equal dictionaries have the same canonical form -/
 theorem canon_eq_of_dictEq (a b : Val) (h : DictEq a b) : a.WF → b.WF → canon a = canon b := by
   induction h with
@@ -320,6 +403,29 @@ theorem canon_eq_of_dictEq (a b : Val) (h : DictEq a b) : a.WF → b.WF → cano
       | some w =>
         simp only [Option.map_some]
         rw [ih k v w h1 h2 (lookup_wf_val ea k v wa h1) (lookup_wf_val eb k w wb h2)]
+  | list xa xb hlen _ ih =>
+    intro wa wb
+    simp only [Val.WF] at wa wb
+    simp only [canon, canonL_eq_map]
+    congr 1
+    apply List.ext_getElem?
+    intro i
+    simp only [List.getElem?_map]
+    cases h1 : xa[i]? with
+    | none =>
+      have : xb[i]? = none := by
+        rw [List.getElem?_eq_none_iff] at h1 ⊢; omega
+      rw [this]
+    | some v =>
+      cases h2 : xb[i]? with
+      | none =>
+        exfalso
+        rw [List.getElem?_eq_none_iff] at h2
+        have := (List.getElem?_eq_some_iff.1 h1).1
+        omega
+      | some w =>
+        simp only [Option.map_some]
+        rw [ih i v w h1 h2 (getElem_wf xa i v wa h1) (getElem_wf xb i w wb h2)]
 
 mutual
 /-- dictionaries with the same canonical form are equal -/
@@ -328,7 +434,21 @@ theorem dictEq_of_canon_eq : ∀ (a b : Val), canon a = canon b → DictEq a b
     simp only [canon, Val.leaf.injEq] at h
     rw [h]; exact .leaf y
   | .leaf x, .dict eb, h => by simp [canon] at h
+  | .leaf x, .list xb, h => by simp [canon] at h
   | .dict ea, .leaf y, h => by simp [canon] at h
+  | .dict ea, .list xb, h => by simp [canon] at h
+  | .list xa, .leaf y, h => by simp [canon] at h
+  | .list xa, .dict eb, h => by simp [canon] at h
+  | .list xa, .list xb, h => by
+    simp only [canon, Val.list.injEq, canonL_eq_map] at h
+    have hlen : xa.length = xb.length := by
+      have := congrArg List.length h
+      simpa using this
+    refine .list xa xb hlen ?_
+    intro i v w h1 h2
+    have := congrArg (fun l => l[i]?) h
+    simp only [List.getElem?_map, h1, h2, Option.map_some, Option.some.injEq] at this
+    exact dictEq_of_getElem xa i v h1 w this
   | .dict ea, .dict eb, h => by
     simp only [canon, Val.dict.injEq] at h
     have hl : ∀ k, (lookup ea k).map canon = (lookup eb k).map canon := by
@@ -353,6 +473,15 @@ theorem dictEq_of_lookup : ∀ (ea : Entries) (k : String) (v : Val), lookup ea 
       exact dictEq_of_canon_eq v0 w hc
     · simp only [hk, if_false] at h
       exact dictEq_of_lookup r k v h w hc
+theorem dictEq_of_getElem : ∀ (xa : List Val) (i : Nat) (v : Val), xa[i]? = some v →
+    ∀ w, canon v = canon w → DictEq v w
+  | [], _, _, h, _, _ => by simp at h
+  | x :: r, 0, v, h, w, hc => by
+    simp at h; subst h
+    exact dictEq_of_canon_eq x w hc
+  | x :: r, i + 1, v, h, w, hc => by
+    simp at h
+    exact dictEq_of_getElem r i v h w hc
 end
 
 end Lena.C08
